@@ -100,6 +100,7 @@ def Entailed (it : Item) (dw : DeriveWhere) (t : Trait) : Oblig → Bool
   | .copySelf => dw.contains .copy || isUnion it
   | .self_ tr =>
     (tr == .clone && dw.contains .clone) || (tr == .ord && dw.shortcut && dw.contains .ord) || tr == .zeroize
+  | .noDrop => (t == .partialOrd || t == .ord) && (dw.contains .copy || dw.contains .clone)
 
 /-- **The only trait obligations an expansion raises** (for every item, attribute, trait and configuration):
 `FieldType: t` for fields that are *not skipped* for the derived trait `t` — the user's side of C02, "the field types
@@ -107,8 +108,11 @@ support the requested traits" (an `Ord`/`PartialOrd` pair may use each other's m
 only next to a `Copy` derived in the same attribute or for a union (whose `Clone` is granted only if it is `Copy`);
 `Self: Clone` only next to a `Clone` derived in the same attribute; `Self: Ord` only when `PartialOrd` delegates under
 `only_custom_bounds` (then both impls carry the same where-clause, `C02_delegation_same_bounds`); `Self: Zeroize` only
-in the `Drop` impl (the documented requirement without `zeroize-on-drop`).  Nothing else: no obligation on a skipped
-field's type, none on an unrelated trait, none on other types. -/
+in the `Drop` impl (the documented requirement without `zeroize-on-drop`); and "`Self` has no `Drop` impl" only in
+`PartialOrd` / `Ord` next to a `Copy` or `Clone` of the same attribute — the `as` cast of the discriminant shortcut, which
+rustc refuses for an enum that implements `Drop` (**known finding KF-dropcast**: `Clone`, `PartialOrd` and `ZeroizeOnDrop`
+on a field-less enum, or a hand-written `impl Drop`, make the expansion fail to compile).  Nothing else: no obligation on
+a skipped field's type, none on an unrelated trait, none on other types. -/
 theorem C02_obligations (c : Cfg) (it : Item) (dw : DeriveWhere) (t : Trait) :
     ∀ m ∈ (generateBody c it dw t).toList, m.body.oblBad (Entailed it dw t) = false := by
   apply obl_generateBody
@@ -131,6 +135,8 @@ theorem C02_obligations (c : Cfg) (it : Item) (dw : DeriveWhere) (t : Trait) :
     simp only [Bool.and_eq_true] at h
     simp [Entailed, h.1, h.2]
   · simp [Entailed]
+  · intro ht hc
+    rcases ht with rfl | rfl <;> rcases hc with hc | hc <;> simp [Entailed, hc]
 
 /-- `C02_obligations` for any set of facts that contains the entailed obligations. -/
 theorem C02_obligations_sub (c : Cfg) (it : Item) (dw : DeriveWhere) (t : Trait) (holds : Oblig → Bool)
@@ -157,12 +163,20 @@ theorem C02_obligations_sub (c : Cfg) (it : Item) (dw : DeriveWhere) (t : Trait)
     simp only [Bool.and_eq_true] at h
     exact hsub _ (by simp [Entailed, h.1, h.2])
   · exact hsub _ (by simp [Entailed])
+  · intro ht hc
+    apply hsub
+    rcases ht with rfl | rfl <;> rcases hc with hc | hc <;> simp [Entailed, hc]
 
 /-- The traversal flags what it should: `Ord::cmp` on a field inside a `PartialEq` impl, a mention of a skipped field,
 `*self` without `Copy`. -/
 example : (Expr.call (.traitFn .cmp) [.var (.selfField 0 0), .var (.otherField 0 0)]).oblBad
     (fun o => o == .field 0 0 .partialEq) = true := by decide
 example : (Expr.deref vSelf).oblBad (fun o => o != .copySelf) = true := by decide
+
+/-- KF-dropcast in the model: the `Clone` shortcut of the discriminant comparison casts a value of the item type; where
+the type has a `Drop` impl (`ZeroizeOnDrop` derived next to it, or written by hand) the obligation fails — and rustc
+refuses the expansion (`cannot cast enum .. because it implements Drop`). -/
+example : (Expr.cast (.selfCall .clone [vSelf]) .isize).oblBad (fun o => o != .noDrop) = true := by decide
 
 /-- What validation establishes about an accepted item is what the generators need in order to emit typeable code. -/
 theorem typeable_of_validated (c : Cfg) (raw : RawItem) (hraw : RawOK raw) (inp : Input)
@@ -414,7 +428,9 @@ configuration: if the facts `holds` about trait implementations contain
 * `Self: Copy` where `Copy` is derived in the same attribute (or the item is a union, whose `Clone` demands it),
   `Self: Clone` where `Clone` is, `Self: Ord` where `PartialOrd` delegates to the `Ord` impl of the same attribute with
   only custom bounds — each then holds under the very where-clause of the impl (`C02_delegation_same_bounds`) —, and
-  `Self: Zeroize` for the delegating `Drop` impl (the documented requirement of that configuration),
+  `Self: Zeroize` for the delegating `Drop` impl (the documented requirement of that configuration), and — for
+  `PartialOrd` / `Ord` next to `Copy` or `Clone` — that the type has no `Drop` impl (`Oblig.noDrop`; where it fails is
+  the known finding KF-dropcast),
 then every generated method **type-checks**: it is well-typed at its signature's return type with every `match`
 exhaustive (`Method'.wellTyped`), and every trait obligation it raises is among those facts (`oblBad holds = false`).
 Together with `C02_impl_list` (exactly the requested impls) this is the model's rendering of the property. -/
